@@ -137,3 +137,11 @@ func VerifC10_MultiplexPool() {
 	}
 	verif.Cover("end")
 }
+
+// VerifC09_MultiplexPool: the same exploration counted for C09 (capacity
+// freed by finished or failed requests becomes available again, counters
+// equal the true numbers).
+func VerifC09_MultiplexPool() {
+	VerifC10_MultiplexPool()
+	verif.Cover("multiplex")
+}
